@@ -418,7 +418,9 @@ func (vc *VC) verifyRun(fn *ssa.Function, fc *FuncContract, key, caseName string
 			case specError:
 				rep.Error = "spec: " + x.msg
 			default:
-				panic(r)
+				// an internal inconsistency (e.g. a clause that no longer type-checks against the code it is
+				// attached to) is a generation failure of this function, not a crash of the check
+				rep.Error = fmt.Sprintf("internal: %v", r)
 			}
 		}
 		rep.Notes = append(rep.Notes, vc.notes...)
@@ -705,7 +707,9 @@ func (vc *VC) proveLemma(lm *Lemma) (rep *FuncReport) {
 			case specError:
 				rep.Error = "spec: " + x.msg
 			default:
-				panic(r)
+				// an internal inconsistency (e.g. a clause that no longer type-checks against the code it is
+				// attached to) is a generation failure of this function, not a crash of the check
+				rep.Error = fmt.Sprintf("internal: %v", r)
 			}
 		}
 	}()
